@@ -302,6 +302,9 @@ func c16Gen(r *vu.RNG, n int, emit func(string)) {
 	emit("t 0 2 0.1.0.0 0.1.0.0 f0 o1.2 o2.1")
 	emit("t 0 4 0.1.0.5 0.1.0.3 0.1.1.0 3.2.2.0 f0 o1.2.3.4 o3.4.2.1 o3.1.4.2")
 	emit("t 1 5 0.2.0.0 1.3.1.0 0.2.1.0 3.3.0.0 3.3.0.0 f3 o1.2.3.4.5 o3.5.4.1.2")
+	// equal primary counts, different heights, the lower leaf arrived first: height decides
+	emit("t 0 3 0.1.0.0 0.1.1.5 2.2.0.9 f0 o1.2.3 o2.3.1 o2.1.3")
+	emit("t 0 5 0.1.0.0 0.1.1.5 2.2.0.9 0.1.2.1 4.2.0.2 f0 o1.2.3.4.5 o4.5.2.3.1 o2.4.3.5.1")
 	max := 4
 	if vu.Thorough() {
 		max = 5
